@@ -26,11 +26,6 @@ import (
 	"golang.org/x/tools/go/ssa"
 )
 
-func isStringType(t types.Type) bool {
-	b, ok := t.Underlying().(*types.Basic)
-	return ok && b.Info()&types.IsString != 0
-}
-
 func (w *World) ruleFindFieldPX(r *Report, rule string, ff *ssa.Function) {
 	key := "findField · compares the Go name with the wire name and its capitalised form"
 	var nameP, typP *ssa.Parameter
